@@ -3,6 +3,7 @@
 package cl
 
 import (
+	"math"
 	"math/big"
 
 	"github.com/ohler55/slip"
@@ -107,7 +108,11 @@ func (f *Divide) Call(s *slip.Scope, args slip.List, depth int) (quot slip.Objec
 			if ta == 0 {
 				slip.DivisionByZeroPanic(s, depth, slip.Symbol("/"), args, "divide by zero")
 			}
-			if quot.(slip.Fixnum)%ta == 0 {
+			if quot.(slip.Fixnum) == math.MinInt64 && ta == -1 {
+				// The one quotient of fixnums that is not a fixnum.
+				var z big.Int
+				quot = (*slip.Bignum)(z.Neg(big.NewInt(math.MinInt64)))
+			} else if quot.(slip.Fixnum)%ta == 0 {
 				quot = quot.(slip.Fixnum) / ta
 			} else {
 				quot = (*slip.Ratio)(big.NewRat(int64(quot.(slip.Fixnum)), int64(ta)))
